@@ -1152,7 +1152,7 @@ def gen_stacks(ctx, pool, n):
 SIZES = {   # name sets and case counts per tier; "search" is the budget of the hunt for a failing input after a correspondence break
     "quick":    dict(g1404=300,  wide=330,  arb_sets=45,  match=2500,  latest=600,  stacks=130,  legal=600,  enum=1500, lists=110, families=3),
     "search":   dict(g1404=1404, wide=700,  arb_sets=150, match=10000, latest=2000, stacks=450,  legal=2000, enum=8000, lists=400, families=12),
-    "thorough": dict(g1404=1404, wide=1600, arb_sets=600, match=40000, latest=8000, stacks=2500, legal=8000, enum=None, lists=2500, families=None),
+    "thorough": dict(g1404=1404, wide=1600, arb_sets=600, match=40000, latest=8000, stacks=1500, legal=8000, enum=None, lists=1000, families=None),
 }
 
 
@@ -1315,7 +1315,8 @@ FLOORS = ("stack/branch=cache", "stack/branch=db", "stack/ties-inside-a-stack", 
           "legal/outcome=relational", "legal/outcome=plain", "legal/outcome=bad",
           "match/text:word-or", "match/text:and", "match/text:no-blank-after-operator", "match/text:no-blank-around-||",
           "match/text:bare-term", "match/text:tab-or-double-blank", "match/text:and-after-or", "match/text:or-after-and",
-          "match/oracle:match_iff_relation", "wide/sort:=", "g1404/sort:<")
+          "match/oracle:match_iff_relation", "match/enumerated-token-sequence", "list/enumerated-family", "list/cli=lines",
+          "list/cli=err:ProductNotFound", "boundary-nines/sort:<", "wide/sort:=", "g1404/sort:<")
 
 
 def run_sizes(ctx, sz):
